@@ -76,7 +76,8 @@ def rule_no_reanchoring(chk, rid):
         if isinstance(s, ast.Assign) and U(s.targets[0]) == acc and base in {n.id for n in ast.walk(s.value) if isinstance(n, ast.Name)}:
             anchors.append(cfg.node_of(s))
     if not anchors:
-        raise AnalysisError("_query_to_absolute: no site copies the base directory into the accumulator")
+        chk.ob(rid, C, False, "no site copies the base directory into the accumulator: './x' is never resolved against the directory", fn, m, key="entry-sentinel")
+        return
     kinds = set()
     for a in anchors:
         for _, txt, pol, _ in dominating_literals(cfg, a):
@@ -185,10 +186,12 @@ def rule_call_sites(chk, rid):
     rm = repo.module("liquer.recipes")
     fn = repo.func("liquer.recipes", "resolve_recipe_definition")
     dirp = params(fn)[1]
-    cs = [c for c in calls_in(fn, tail="to_absolute")]
-    chk.floor(rid, len(cs), 2, "to_absolute calls in resolve_recipe_definition")
-    for c in cs:
-        chk.ob(rid, "liquer.recipes.resolve_recipe_definition", c.args and U(c.args[0]) == dirp, f"resolves against `{U(c.args[0]) if c.args else None}`", c, rm, key="recipe-dir")
+    ps = [c for c in calls_in(fn) if call_name(c) == "parse"]
+    chk.floor(rid, len(ps), 2, "parse calls in resolve_recipe_definition")
+    for c in ps:
+        ok = any(x.func.value is c and x.args and U(x.args[0]) == dirp for x in calls_in(fn, tail="to_absolute"))
+        chk.ob(rid, "liquer.recipes.resolve_recipe_definition", ok, f"`{U(c)}` is resolved against the recipe directory `{dirp}`" if ok else
+               f"`{U(c)}` is not resolved against the recipe directory", c, rm, key=f"recipe-dir:{U(c.args[0])}")
     cm = repo.module("liquer.context")
     et = repo.func("liquer.context", "Context.evaluate_template")
     cs = [c for c in calls_in(et, tail="to_absolute")]
